@@ -464,3 +464,44 @@ pub fn record_text(b: &Board, m: SMove, white: bool) -> Text<8> {
     }
     t
 }
+
+// ------------------------------------------------------------------------------------------------
+// FEN text (C11): one rank of the placement field, and the fields after it
+// ------------------------------------------------------------------------------------------------
+
+/// placement text of one rank: letters, run-length digits for empty squares, `/` after every rank but the first
+pub fn fen_rank_text(b: &Board, rank: usize) -> Text<9> {
+    let mut t = Text::new();
+    let mut empty: u8 = 0;
+    let mut f = 0;
+    while f < 8 {
+        let c = b[rank * 8 + f];
+        if c == EMPTY { empty += 1; } else {
+            if empty > 0 { t.push(b'0' + empty); empty = 0; }
+            t.push(fen_letter(c));
+        }
+        f += 1;
+    }
+    if empty > 0 { t.push(b'0' + empty); }
+    if rank > 0 { t.push(b'/'); }
+    t
+}
+
+/// ` w KQkq e3 0 N`: side, castling rights, e.p. square (rank 6 when White is to move, 3 when Black is),
+/// half-move clock (the engine always writes 0), full-move number (1..=9 supported here)
+pub fn fen_tail_text(v: &View, fullmove: u8) -> Text<16> {
+    let mut t = Text::new();
+    t.push(b' ');
+    t.push(if v.white_to_move { b'w' } else { b'b' });
+    t.push(b' ');
+    let mut any = false;
+    if v.castle[0] { t.push(b'K'); any = true; }
+    if v.castle[1] { t.push(b'Q'); any = true; }
+    if v.castle[2] { t.push(b'k'); any = true; }
+    if v.castle[3] { t.push(b'q'); any = true; }
+    if !any { t.push(b'-'); }
+    t.push(b' ');
+    if v.ep < 8 { t.push(b'a' + v.ep); t.push(if v.white_to_move { b'6' } else { b'3' }); } else { t.push(b'-'); }
+    t.push(b' '); t.push(b'0'); t.push(b' '); t.push(b'0' + fullmove);
+    t
+}
